@@ -22,6 +22,7 @@ RelFor(label, i) ==
       [] label = "after-subst" -> << <<[name |-> <<120>>, restr |-> "substvar"], [name |-> Bin(i, 2), restr |-> "not-other"]>> >>
       [] label = "fallback"    -> << <<[name |-> Ext, restr |-> "not-target"], [name |-> Bin(i, 1), restr |-> "none"]>> >>
       [] label = "excluded"    -> << <<[name |-> Bin(i, 2), restr |-> "not-target2"], [name |-> Ext, restr |-> "none"]>> >>   \* "[!i386 !amd64]": not for the target -> no edge
+      [] label \in {"q-native", "q-any", "q-target", "versioned"} -> << <<[name |-> Bin(i, 2), restr |-> label]>> >>      \* -> edge
       [] label = "none"        -> <<>>
 Labelings == [Pairs -> Labels]
 FieldOf(i, j) == 1 + ((i + j) % 3)
@@ -45,5 +46,11 @@ Plain2 == [name |-> SrcName(2), binaries |-> <<Bin(2, 1), Bin(2, 2)>>, fields |-
 SelfVecs == {LET g == IF two THEN (IF first THEN <<SelfSrc(lb, f), Plain2>> ELSE <<Plain2, SelfSrc(lb, f)>>) ELSE <<SelfSrc(lb, f)>> IN
              [k |-> "order", sources |-> g, folded |-> FALSE, dscs |-> [j \in 1..Len(g) |-> RenderDsc(g[j], FALSE)]] :
                 lb \in {"dep", "dep-arch", "unselected", "other-arch", "after-subst", "fallback", "excluded"}, f \in 1..3, two \in BOOLEAN, first \in BOOLEAN}
-ASSUME Emit(SetToSeq({Vec(lab, fo) : lab \in Labelings, fo \in BOOLEAN} \cup {SelfVec} \cup SelfVecs))
+\* qualified and versioned names: one edge between two sources (the rest unrelated), in both directions - the dependent
+\* source is listed first in one of them
+QualLabs == {[p \in Pairs |-> IF p = e THEN lb ELSE "none"] : e \in {<<1, 2>>, <<2, 1>>}, lb \in {"q-native", "q-any", "q-target", "versioned"}}
+\* ... and a cycle closed through such a name
+QualCycles == {[p \in Pairs |-> IF p = <<1, 2>> THEN lb ELSE IF p = <<2, 1>> THEN "dep" ELSE "none"] : lb \in {"q-native", "q-any", "q-target", "versioned"}}
+ASSUME Emit(SetToSeq({Vec(lab, fo) : lab \in Labelings, fo \in BOOLEAN} \cup {SelfVec} \cup SelfVecs
+                     \cup {Vec(lab, FALSE) : lab \in QualLabs \cup QualCycles}))
 =============================================================================
